@@ -133,3 +133,70 @@ def _bound(tier):
     return (f"3 slots {SLOTS}; per slot memory in {{absent, 1}}, set_data in {{absent, 2}}, buffer in {{none, one due, one not yet due, "
             f"two due}}; slot 0 pulled in {{no, cache has value, cache lacks value, time-shifted by 1}}; step time 3"
             + ("" if tier == "thorough" else "; at most 5 non-empty table entries"))
+
+
+def bounded_set_data(tier, seed):
+    """MosaikRemote.set_data / get_data towards simulators with and without an async-requests connection:
+    refused with ScenarioError exactly when an addressed simulator lacks such a connection, before any effect
+    for THAT simulator; otherwise exactly the given values are stored under the sender's full id (C16)"""
+    import asyncio
+    import mosaik
+    from mosaik.exceptions import ScenarioError
+    from mosaik.simmanager import SimRunner, MosaikRemote
+    from mosaik.tiered_time import TieredInterval, TieredTime
+    failures, cases = [], 0
+    datas = [
+        {"B.b": {"A.e": {"x": 1}}},
+        {"B.b": {"A.e": {"x": 1, "y": 2}, "A.f": {"x": 3}}},
+        {"B.b": {"A.e": {"x": 1}}, "B.c": {"A.e": {"x": 4}}},
+        {"B.b": {"A.e": {"x": 1}, "C.e": {"x": 5}}},
+        {"B.b": {"C.e": {"x": 5}}},
+        {},
+    ]
+    for data in datas:
+        for conn_a in ("async", "plain", "none"):
+            for conn_c in ("async", "none"):
+                for pre in ({}, {"e": {"x": {"B.b": 0, "D.d": 9}}}):
+                    cases += 1
+                    w = mosaik.World({}, skip_greetings=True)
+                    try:
+                        sims = {n: SimRunner(n, _StubProxy()) for n in "ABC"}
+                        w.sims.update(sims)
+                        for n, conn in (("A", conn_a), ("C", conn_c)):
+                            if conn in ("async", "plain"):
+                                sims[n].successors[sims["B"]] = TieredInterval(0)
+                            if conn == "async":
+                                sims[n].successors_to_wait_for[sims["B"]] = TieredInterval(0)
+                        import copy
+                        sims["A"].inputs_from_set_data = copy.deepcopy(pre)
+                        before = {n: copy.deepcopy(s.inputs_from_set_data) for n, s in sims.items()}
+                        try:
+                            w.loop.run_until_complete(MosaikRemote(w, "B").set_data(copy.deepcopy(data)))
+                            raised = False
+                        except ScenarioError:
+                            raised = True
+                        ok_conn = {"A": conn_a == "async", "C": conn_c == "async"}
+                        exp = copy.deepcopy(before)
+                        exp_raise = False
+                        for src_full_id, dest in data.items():
+                            for full_id, attrs in dest.items():
+                                sid, eid = full_id.split(".", 1)
+                                if not ok_conn[sid]:
+                                    exp_raise = True
+                                    break
+                                for attr, val in attrs.items():
+                                    exp[sid].setdefault(eid, {}).setdefault(attr, {})[src_full_id] = val
+                            if exp_raise:
+                                break
+                        after = {n: s.inputs_from_set_data for n, s in sims.items()}
+                        # tolerate empty intermediate dicts created before a refusal for the same simulator? no: compare leaves
+                        leaves = lambda d: {n: {(e, a, s): v for e, x in dd.items() for a, y in x.items() for s, v in y.items()}  # noqa: E731
+                                            for n, dd in d.items()}
+                        if raised != exp_raise or leaves(after) != leaves(exp):
+                            failures.append({"desc": f"set_data({data}) by B with A: {conn_a}, C: {conn_c}, earlier set_data {pre}: "
+                                                     f"raised={raised} (expected {exp_raise}); stored {leaves(after)}, expected {leaves(exp)}",
+                                             "case": {"data": data, "A": conn_a, "C": conn_c}})
+                    finally:
+                        w.loop.close()
+    return {"bound": f"{len(datas)} request shapes x connection kinds of two addressed simulators x 2 earlier states", "cases": cases,
+            "failures": failures[:5]}
